@@ -211,7 +211,9 @@ func runC15One(cs *vrt.Case) {
 	r := cs.Rng
 	th := cs.Thorough()
 	if cs.Idx%7 == 6 && (th && cs.Idx >= 80 || !th && cs.Idx >= 16) {
-		c15Causal(cs, r)
+		for t := 0; t < 6; t++ {
+			c15Causal(cs, r)
+		}
 		return
 	}
 	var kind, part, parts int
